@@ -1124,21 +1124,22 @@ class Server(utils.EventEmitter):
             # must all be world-readable
             attribute_value = await attribute.read_value(bearer)
             length = len(attribute_value)
-            # Check the attribute value size
-            max_attribute_size = min(bearer.att_mtu - 3, 251)
+
+            # Check if there is enough space for the length field
+            if pdu_space_available < 2:
+                break
+
+            # Only the last value of the list may be truncated, to what fits in the PDU
+            # (the length field still carries the full length)
+            max_attribute_size = pdu_space_available - 2
             if len(attribute_value) > max_attribute_size:
                 # We need to truncate
                 attribute_value = attribute_value[:max_attribute_size]
 
-            # Check if there is enough space
-            entry_size = 2 + len(attribute_value)
-
             # Add the attribute to the list
+            entry_size = 2 + len(attribute_value)
             length_value_tuple_list.append((length, attribute_value))
             pdu_space_available -= entry_size
-
-            if pdu_space_available <= 0:
-                break
 
         response = att.ATT_Read_Multiple_Variable_Response(
             length_value_tuple_list=length_value_tuple_list
